@@ -400,7 +400,7 @@ namespace BitSerializer::Convert::Utf
 							if (in == end)
 							{
 								// Should return iterator to first character in surrogate pair
-								return UtfEncodingResult(UtfEncodingErrorCode::UnexpectedEnd, startTailPos, 0);
+								return UtfEncodingResult(UtfEncodingErrorCode::UnexpectedEnd, startTailPos, invalidSequencesCount);
 							}
 							// Surrogate characters are always written as pairs (low follows after high)
 							const char16_t low = *in;
